@@ -428,6 +428,14 @@ fn rand_atoms(rng: &mut Rng, n: usize) -> Vec<P> {
     v
 }
 
+fn count_terms(p: &P) -> usize {
+    match p {
+        P::Th(_, s) | P::And(s) | P::Or(s) => s.iter().map(count_terms).sum::<usize>(),
+        P::U | P::T => 0,
+        _ => 1,
+    }
+}
+
 fn count_nodes(p: &P) -> usize {
     match p {
         P::Th(_, s) | P::And(s) | P::Or(s) => 1 + s.iter().map(count_nodes).sum::<usize>(),
@@ -575,6 +583,31 @@ pub fn generate(seed: u64, thorough: bool) -> Vec<Input> {
             cases.push(Input::Ent(p, q));
         } else {
             cases.push(Input::Ent(q, p));
+        }
+    }
+    // entailment with many terminals but few distinct atoms (the recursion depth is the number
+    // of distinct atoms): both sides of ENTAILMENT_MAX_TERMINALS = 20
+    for n in [8usize, 9, 10, 11, 15, 19, 20, 21, 22, 25] {
+        for _ in 0..(if thorough { 12 } else { 4 }) {
+            let natoms = 2 + rng.below(4) as usize;
+            let atoms = rand_atoms(&mut rng, natoms);
+            // exactly n terminals: groups of leaves under two levels of thresholds
+            let mut groups: Vec<P> = Vec::new();
+            let mut left = n;
+            while left > 0 {
+                let g = (1 + rng.below(4) as usize).min(left);
+                left -= g;
+                let leaves: Vec<P> = (0..g).map(|_| rng.pick(&atoms).clone()).collect();
+                let k = rand_k(&mut rng, g);
+                groups.push(P::Th(k, leaves));
+            }
+            let k = rand_k(&mut rng, groups.len());
+            let p = P::Th(k, groups);
+            let q = related(&mut rng, &p, &atoms);
+            cases.push(Input::Ent(p.clone(), q.clone()));
+            if count_terms(&q) <= 25 {
+                cases.push(Input::Ent(q, p));
+            }
         }
     }
     for i in 0..n_rand {
